@@ -92,3 +92,11 @@ Print Assumptions interp_premultiplied.
 (* the float64 instance at the odd integer where the repaired defect lived *)
 Example ex_reflect3 : clamp 2 (SF.of_Z SF.F64 3) = SF.of_Z SF.F64 1.
 Proof. vm_compute. reflexivity. Qed.
+
+(* ---- tie to the source: Spread.Clamp of render/gradient.go, translated from /repo's working tree by
+   harness/gosrc.go on every run (gen/GoSrc.v), is the float64 instance of clamp_gen. ---- *)
+From IVG Require Import GoSem GoSrc GenEqGeom.
+
+Theorem code_Clamp : forall s x, go_render_Spread_Clamp s x = Gradient.clamp s x.
+Proof. exact GenEqGeom.go_Clamp_eq. Qed.
+Print Assumptions code_Clamp.
